@@ -343,10 +343,49 @@ def call_forward(ns, case, la, lo, ell, prj):
     return ns.convert.geo2grid(la, lo, case['zone'], ell, prj)
 
 
+# ---------------------------------------------------------------------------------------------
+# calls the properties do not speak about (rejected or meaningless arguments), made before a judged call:
+# not judged, exceptions swallowed - the judged call after them must be as right as ever
+# ---------------------------------------------------------------------------------------------
+def gen_unjudged_calls(rnd):
+    out = []
+    for _ in range(rnd.choice([1, 1, 2])):
+        ell = rnd.choice(['grs80', 'ans', 'wgs84', 'intl24', [6378200.0, 299.5]])
+        prj = rnd.choice(['utm', 'utm', 'isg', [400000.0, 0.0, 0.9999, 3.0, -178.5]])
+        if rnd.random() < 0.5:
+            lat = rnd.choice([85.0, -80.5, 90.0, float('nan'), 'x', rnd.uniform(-80, 84)])
+            lon = rnd.choice([181.0, -180.5, 360.0, float('nan'), rnd.uniform(-180, 180), rnd.uniform(140, 155)])
+            zone = rnd.choice([61, -1, 999, 540, 573, 0, 56, 561, 1.5])
+            out.append({'fn': 'geo2grid', 'args': [lat, lon, zone], 'ell': ell, 'prj': prj})
+        else:
+            zone = rnd.choice([0, 61, -3, 999, 540, 573, 56, 561, 'x'])
+            east = rnd.choice([-1e7, 2e7, float('nan'), 500000.0, rnd.uniform(1e5, 9e5)])
+            north = rnd.choice([-5.0, 2e7, float('nan'), rnd.uniform(0, 1e7)])
+            hemi = rnd.choice(['south', 'north', 'East', '', None, 0])
+            out.append({'fn': 'grid2geo', 'args': [zone, east, north, hemi], 'ell': ell, 'prj': prj})
+    return out
+
+
+def run_unjudged_calls(ns, ctx, case):
+    import warnings
+    for call in case.get('before') or ():
+        fn = getattr(ns.convert, call['fn'])
+        ctx.count('unjudged_calls_before_a_judged_one')
+        try:
+            with core.deadline(30), warnings.catch_warnings():
+                warnings.simplefilter('ignore')
+                fn(*call['args'], ell_obj(ns, call['ell']), prj_obj(ns, call['prj']))
+        except core.DidNotReturn:
+            ctx.count('unjudged_call_did_not_return_in_30s')
+        except Exception as e:
+            ctx.count('unjudged_call_raised:' + type(e).__name__)
+
+
 def judge_forward(ns, ctx, case, aspects):
     """aspects: subset of {'F' (C01 exactness/zone/hemisphere), 'K' (C10 psf/conv of forward),
     'RT' (C02 geo->grid->geo), 'KI' (C10 inverse psf/conv and forward/inverse agreement)}.
     Returns the library result (or None)."""
+    run_unjudged_calls(ns, ctx, case)
     ell = ell_obj(ns, case['ell'])
     prj = prj_obj(ns, case['prj'])
     a, invf = ell_published(case['ell'])
@@ -481,6 +520,7 @@ def judge_forward(ns, ctx, case, aspects):
 def judge_grid(ns, ctx, case, aspects):
     """Grid-lattice case.  aspects: 'I' (C02 inverse vs oracle + round trip + mirror + stand-alone),
     'KI' (C10 psf/conv of the inverse)."""
+    run_unjudged_calls(ns, ctx, case)
     ell = ell_obj(ns, case['ell'])
     prj = prj_obj(ns, case['prj'])
     a, invf = ell_published(case['ell'])
